@@ -122,7 +122,7 @@ def run(rep, tier, seed):
     rep.cov["apalache_inductive_invariant"] = apa
     case_table(rep)
     n = 48 if quick else 900
-    jobs = [(seed % 100000 + 11, i, {"checkdraws": False, "max_steps": 120 if quick else 250}) for i in range(n)]
+    jobs = [(seed % 100000 + 11, i, {"checkdraws": False, "max_steps": 120 if quick else 250, "extend": 0.3}) for i in range(n)]
     results = mc.pool_map(jc.model_worker, jobs)
     judge(rep, results, {"limits", "invariant:InLimitsNow", "invariant:RejectedStepChangesNothing"}, "C11",
           python_findings=False)
@@ -140,6 +140,7 @@ def run(rep, tier, seed):
             k = ("none" if lo is None else "lo") + "/" + ("none" if hi is None else "hi")
             lim_kinds[k] = lim_kinds.get(k, 0) + 1
     rep.cov["limit_kinds"] = lim_kinds
+    rep.cov["models_extended_after_simulation"] = sum(1 for r in results if r.get("extended"))   # same object: add_event / add_transition / add_birth_death, then simulated again
     rep.rule("%d random event models x 8 runs with per-state limits of every kind, boundary starts, magnitudes up "
              "to 3, fixed large tau, several epsilon; plus the complete _checkJump table" % n)
 
